@@ -74,3 +74,11 @@ Theorem C01_slane_nonvacuous :
   exists s, demo_final = Some s /\ reach 1 s /\ quiescent s /\ rootq s = 0 /\ started s = [1; 0] /\ nextid s = 2.
 Proof. exact demo_reach. Qed.
 Print Assumptions C01_slane_nonvacuous.
+
+(* ... and a run through the override continuation of a push onto a non-empty list (wakeup without MAKE_DIRTY sets
+   ENQUEUED and pushes the lane; the list-emptying pusher's later wakeup only adds DIRTY) *)
+Theorem C01_slane_nonvacuous_override :
+  exists s, run (init_state 1) demo2_acts = Some s /\ reach 1 s /\ quiescent s /\ rootq s = 0 /\
+            started s = [1; 0] /\ nextid s = 2 /\ lst s = [].
+Proof. exact demo2_reach. Qed.
+Print Assumptions C01_slane_nonvacuous_override.
